@@ -1,44 +1,8 @@
 import CogentModel.Proofs.AlnRefine1
 import CogentModel.Proofs.AlnRc
+import CogentModel.Proofs.AlnTakePos
 namespace CogentModel.Aln
 open CogentModel.IndelMap CogentModel.Gapped List CogentModel
-
-theorem denseTake_cons (s : List Char) (i : Int) (rest : List Int) :
-    denseTake s (i :: rest) = (match PySlice.index s i, denseTake s rest with
-      | some c, .ok tl => .ok (c :: tl)
-      | none, _ => .error .indexError
-      | _, .error e => .error e) := rfl
-
-theorem takePositions_go_spec (r : Row) (h : RowWF r) : ∀ (cols : List Int) (s : List Char),
-    rowTakePositions.go r cols = .ok s → denseTake (gapped r) cols = .ok s := by
-  intro cols
-  induction cols with
-  | nil => intro s hs; simp only [rowTakePositions.go] at hs; cases hs; rfl
-  | cons i rest ih =>
-    intro s hs
-    simp only [rowTakePositions.go] at hs
-    cases hri : rowInt r i with
-    | error e => rw [hri] at hs; cases hgo : rowTakePositions.go r rest <;> rw [hgo] at hs <;> cases hs
-    | ok x =>
-      cases hgo : rowTakePositions.go r rest with
-      | error e => rw [hri, hgo] at hs; cases hs
-      | ok tl =>
-        rw [hri, hgo] at hs
-        cases hs
-        obtain ⟨_, c, hc1, hc2⟩ := rowInt_spec r x h i hri
-        rw [denseTake_cons, hc1, ih tl hgo, hc2]
-        rfl
-
-theorem rowTakePositions_spec (r r' : Row) (h : RowWF r) (cols : List Int)
-    (hr : rowTakePositions r cols = .ok r') :
-    RowWF r' ∧ denseTake (gapped r) cols = .ok (gapped r') := by
-  unfold rowTakePositions at hr
-  cases hgo : rowTakePositions.go r cols with
-  | error e => rw [hgo] at hr; cases hr
-  | ok s =>
-    rw [hgo] at hr
-    cases hr
-    exact ⟨rowWF_ofString s, by rw [gapped_rowOfString]; exact takePositions_go_spec r h cols s hgo⟩
 
 theorem dispCol_map (data : List Char) (f : Char → Char) (hf : f '-' = '-') (o : Option Nat) :
     dispCol (data.map f) o = f (dispCol data o) := by
@@ -99,8 +63,7 @@ theorem takeSeqs_show (a : AlnA) (names : List String) (negate : Bool) :
 
 /-- the operations for which the history theorem is proved -/
 def OpOK : AOp → Prop
-  | .slice _ _ | .int _ | .rc | .takeSeqs _ _ | .toRna | .toDna | .addSelf | .addCopy => True
-  | .takePositions _ neg => neg = false
+  | .slice _ _ | .int _ | .rc | .takeSeqs _ _ | .takePositions _ _ | .toRna | .toDna | .addSelf | .addCopy => True
   | .keep _ => False
 
 theorem toRna_gap : toRna '-' = '-' := by decide
@@ -150,16 +113,25 @@ theorem step_refines (dna : Bool) (a : AlnA) (op : AOp) (hop : OpOK op) (hwf : A
     obtain ⟨q, hq, hpq⟩ := mem_takeSeqs a ns neg p hp
     rw [hpq]; exact hwf q hq
   | takePositions cols neg =>
-    have hneg : neg = false := hop
-    subst hneg
-    simp only [stepA, Bool.false_eq_true, if_false] at h
-    cases hm : mapRows (fun r => rowTakePositions r cols) a with
-    | error e => rw [hm] at h; cases h
-    | ok a'' =>
-      rw [hm] at h; cases h
-      obtain ⟨i1, i2⟩ := mapRows_partial _ (fun s => denseTake s cols)
-        (fun r r' hr hh => rowTakePositions_spec r r' hr cols hh) a a' hwf hm
-      exact ⟨i1, by simp only [stepD, Bool.false_eq_true, if_false]; rw [i2]; rfl⟩
+    cases neg with
+    | false =>
+      simp only [stepA, Bool.false_eq_true, if_false] at h
+      cases hm : mapRows (fun r => rowTakePositions r cols) a with
+      | error e => rw [hm] at h; cases h
+      | ok a'' =>
+        rw [hm] at h; cases h
+        obtain ⟨i1, i2⟩ := mapRows_partial _ (fun s => denseTake s cols)
+          (fun r r' hr hh => rowTakePositions_spec r r' hr cols hh) a a' hwf hm
+        exact ⟨i1, by simp only [stepD, Bool.false_eq_true, if_false]; rw [i2]; rfl⟩
+    | true =>
+      simp only [stepA, if_true] at h
+      cases hm : mapRows (fun r => rowTakePositionsNeg r cols) a with
+      | error e => rw [hm] at h; cases h
+      | ok a'' =>
+        rw [hm] at h; cases h
+        obtain ⟨i1, i2⟩ := mapRows_total _ (fun s => denseTakeNeg s cols)
+          (fun r r' hr hh => rowTakePositionsNeg_spec r r' hr cols hh) a a' hwf hm
+        exact ⟨i1, by simp only [stepD, if_true]; rw [mapDense_ok, i2]; rfl⟩
   | toRna =>
     simp only [stepA] at h; cases h
     refine ⟨?_, ?_⟩
